@@ -421,8 +421,11 @@ class Session:
             if any(f.state != "ended" for f in c.fetches.values() if f.request is not p):
                 return "err", None
             usr = self.creds.users.get(u)
-            if usr is None or usr["password"] != pw:
-                return "err", None
+            # (an account that got its password while its stored string named no hash method is hashed with traditional DES
+            # crypt, which looks at the first 8 characters only)
+            same = usr is not None and (pw[:8] == usr["password"][:8] if usr.get("des") else pw == usr["password"])
+            if usr is None or not same or usr.get("hash") is not None:
+                return "err", None      # (an account whose stored hash is no complete hash - locked, half provisioned - accepts no password at all)
 
             def eff():
                 c.user = u
@@ -440,9 +443,14 @@ class Session:
                 return "err", None
             if c.user != u and not self.creds.users[c.user].get("admin"):
                 return "err", None
+            if tgt.get("hash") is not None:
+                p.may_refuse = True     # whether a salt can be derived from a stored string that is no hash depends on that string
 
             def eff():
                 tgt["password"] = pw
+                oldh = tgt.pop("hash", None)
+                if oldh is not None and not oldh.startswith("$"):
+                    tgt["des"] = True   # from now on an ordinary account, hashed with the fall-back method
                 self.stats["passwd_ok"] += 1
             return "ok", eff
         return "err", None
